@@ -51,7 +51,7 @@ func (c13) Runs(t Tier) int {
 }
 func (c13) RecordWidths() map[string]int { return map[string]int{"corrupt": 4} }
 func (c13) RequiredProbes() []string {
-	return []string{"bitflip", "truncate", "extend", "misdirected", "type-rewrite", "fanout-rewrite", "fanout-mismatch-parent-child", "bitfield-longer", "bitfield-shorter", "hashtype-rewrite", "filesize-rewrite", "blocksizes-rewrite", "name-absent", "name-short", "name-duplicate", "tsize-absent", "corrupt-at-kth-read", "deep-shard-chain", "decoder-bytes", "op-error", "op-ok-despite-corruption"}
+	return []string{"bitflip", "truncate", "extend", "misdirected", "type-rewrite", "fanout-rewrite", "fanout-mismatch-parent-child", "bitfield-longer", "bitfield-shorter", "hashtype-rewrite", "filesize-rewrite", "blocksizes-rewrite", "name-absent", "name-short", "name-duplicate", "tsize-absent", "corrupt-at-kth-read", "link-retarget", "deep-shard-chain", "decoder-bytes", "op-error", "op-ok-despite-corruption"}
 }
 
 type c13Scenario struct {
@@ -422,6 +422,46 @@ func corruptBlock(res *Result, st *store.Store, info map[string]*blockInfo, orde
 		u.Fanout, u.Data, u.HasData = nf, bf, true
 		res.probe("fanout-mismatch-parent-child")
 		desc = fmt.Sprintf("re-encoded as a consistent fanout-%d shard", nf)
+	case 16: // a link retargeted to a block of another kind (still acyclic)
+		if len(rn.Links) == 0 {
+			return nil, ""
+		}
+		var cands []cid.Cid
+		for _, o := range order {
+			if o.Equals(c) || reaches(info, o, c) {
+				continue
+			}
+			if self := info[c.KeyString()]; self != nil && info[o.KeyString()].size > self.size {
+				continue
+			}
+			cands = append(cands, o)
+		}
+		// plus blocks that are not part of this DAG at all: a raw block, an
+		// identity CID, a CID with a codec nothing is registered for
+		extra := gen.PutRaw(st, []byte("stray raw block"))
+		cands = append(cands, extra)
+		i := int(a % uint64(len(rn.Links)))
+		switch b % 4 {
+		case 0, 1:
+			t := cands[int((b>>8)%uint64(len(cands)))]
+			rn.Links[i].Hash = t.Bytes()
+			desc = fmt.Sprintf("link %d retargeted to %s", i, shortCid(t))
+		case 2:
+			// dag-cbor codec over the stray block's hash: no such block, and no
+			// dag-cbor decoder is registered in this link system
+			t := cid.NewCidV1(0x71, extra.Hash())
+			rn.Links[i].Hash = t.Bytes()
+			desc = fmt.Sprintf("link %d retargeted to a dag-cbor CID", i)
+		default:
+			r := tape.NewSplitMix(b)
+			g := make([]byte, 1+(b>>8)%40)
+			for k := range g {
+				g[k] = byte(r.Next())
+			}
+			rn.Links[i].Hash = g
+			desc = fmt.Sprintf("link %d hash replaced by %d garbage bytes", i, len(g))
+		}
+		res.probe("link-retarget")
 	default:
 		return nil, ""
 	}
@@ -431,7 +471,7 @@ func corruptBlock(res *Result, st *store.Store, info map[string]*blockInfo, orde
 	return rn.Encode(), desc
 }
 
-const nCorruptKinds = 16
+const nCorruptKinds = 17
 
 func (c13) Run(ts *tape.Set, tier Tier) *Result {
 	res := &Result{}
